@@ -62,7 +62,12 @@ var c07TypeRoots = []string{
 	"{\n  @t: 1\n}",
 	"[\n  @t, // {optional: false}\n  @t | @u\n]",
 	"1 // {type: \"@t\"}",
+	"{\n  \"k\": @a\n}", // @a: a helper type inheriting from @t, its name sorts before @t
 }
+
+// c07HelpA inherits from the hostile type: what the checker finds in an inherited property lies
+// in the PARENT's text.
+const c07HelpA = "{ // {allOf: \"@t\"}\n  \"o\": 1\n}"
 
 // Schemas a hostile enum rule @e is used from.
 var c07EnumRoots = []string{
@@ -560,6 +565,10 @@ func (r *c07Runner) roleType(input []byte) {
 				continue
 			}
 			r.call(label+".root.AddType(@t hostile)", func() error { return root.AddType("@t", typ) })
+			if strings.Contains(rootText, "@a") {
+				r.src("h-a", []byte(c07HelpA))
+				r.call(label+".root.AddType(@a helper)", func() error { return root.AddType("@a", njs.New("h-a", c07HelpA, c07Opts(opt)...)) })
+			}
 			// whatever AddType answered, the root stays a legal object to use
 			r.rootMethods(label+".root", root, input)
 			r.call(label+".type.Check", typ.Check)
